@@ -101,7 +101,11 @@ func loadSources(spec string) ([]projSrc, error) {
 				out = append(out, projSrc{name: strings.TrimPrefix(f, parts[1]), path: f})
 			}
 		}
-	case strings.HasPrefix(spec, "model:"):
+	case strings.HasPrefix(spec, "model:"), strings.HasPrefix(spec, "modelall:"):
+		// model: the documents the specification accepts; modelall: rejected ones as well (their error must be stable, C06)
+		all := strings.HasPrefix(spec, "modelall:")
+		spec = spec[strings.Index(spec, ":")+1:]
+		spec = "model:" + spec
 		if err := loadPools(spec[6:]); err != nil {
 			return nil, err
 		}
@@ -110,7 +114,7 @@ func loadSources(spec string) ([]projSrc, error) {
 			if err := json.Unmarshal([]byte(js), &cs); err != nil {
 				return err
 			}
-			if cs.X.Res == "ok" {
+			if cs.X.Res == "ok" || all {
 				out = append(out, projSrc{name: "model:" + strings.Join(cs.Blocks, ","), text: renderTokens(cs.Doc, false, canon).text})
 			}
 			return nil
